@@ -30,7 +30,8 @@ pub const F_POLL_WRONG_CHANNEL: usize = 16;
 pub const F_BAD_ARGUMENT: usize = 17;
 pub const F_INVALID_BYTES: usize = 18;
 pub const F_FORK: usize = 19;
-pub const N_FAULTS: usize = 20;
+pub const F_RESTORE: usize = 20;
+pub const N_FAULTS: usize = 21;
 pub const FAULT_NAMES: [&str; N_FAULTS] = [
     "drop",
     "dup",
@@ -52,6 +53,7 @@ pub const FAULT_NAMES: [&str; N_FAULTS] = [
     "bad-argument",
     "invalid-bytes",
     "fork",
+    "checkpoint-restore",
 ];
 
 /// Per-property weights. One world, shifted towards the property's subject.
@@ -241,6 +243,9 @@ pub fn draw_cfg(r: &mut Rng, p: &Preset) -> Cfg {
         if r.below(1000) < p.fork_pm * 4 {
             rate[F_FORK] = 30;
         }
+        if r.below(1000) < p.fork_pm * 4 {
+            rate[F_RESTORE] = *r.pick(&[20u64, 60]);
+        }
     } else if p.name == "C16" {
         // transparency needs foreign traffic even when nothing else goes wrong
         rate[F_INJECT] = 60;
@@ -248,6 +253,7 @@ pub fn draw_cfg(r: &mut Rng, p: &Preset) -> Cfg {
         rate[F_RESET_PLAIN] = 40;
         rate[F_RESET_MIDFLIGHT] = 60;
         rate[F_FORK] = 30;
+        rate[F_RESTORE] = 30;
     }
     for x in rate.iter_mut() {
         *x = (*x).min(600);
@@ -366,6 +372,7 @@ pub struct Gen<'a> {
     stats: &'a mut Probes,
     rr_next: usize,
     stall_left: u32,
+    snap_state: Option<([bool; 16], [bool; 16])>,
 }
 
 fn is_pn(cn: u8) -> bool {
@@ -376,7 +383,7 @@ impl<'a> Gen<'a> {
     pub fn generate(r: &'a mut Rng, p: &'a Preset, stats: &'a mut Probes) -> (Trace, Cfg) {
         let cfg = draw_cfg(r, p);
         let numbers = [(r.below(16384) as u16, r.chance(1, 2)), (r.below(16384) as u16, r.chance(1, 2))];
-        let mut g = Gen { r, p, cfg, ev: Vec::new(), next_group: 0, uniq: [0; 16], numbers, inflight: [false; 16], pending_value: [false; 16], stats, rr_next: 0, stall_left: 0 };
+        let mut g = Gen { r, p, cfg, ev: Vec::new(), next_group: 0, uniq: [0; 16], numbers, inflight: [false; 16], pending_value: [false; 16], stats, rr_next: 0, stall_left: 0, snap_state: None };
         if g.cfg.channels.len() > 1 {
             g.stats.multi_channel_runs += 1;
         }
@@ -827,6 +834,24 @@ impl<'a> Gen<'a> {
         self.pending_value = [false; 16];
     }
 
+    /// Host checkpoints the scanners now and then, and sometimes restores the last checkpoint.
+    fn maybe_checkpoint(&mut self) {
+        let rate = self.cfg.rate[F_RESTORE];
+        if rate == 0 {
+            return;
+        }
+        if self.r.below(1000) < rate {
+            self.ev.push(Ev::Snapshot);
+            self.snap_state = Some((self.inflight, self.pending_value));
+        } else if self.snap_state.is_some() && self.r.below(1000) < rate {
+            self.fire(F_RESTORE, None);
+            self.ev.push(Ev::Restore);
+            let (a, b) = self.snap_state.unwrap();
+            self.inflight = a;
+            self.pending_value = b;
+        }
+    }
+
     fn emit_fork(&mut self) {
         let k = self.r.below(8) as u8;
         let n = self.r.below(5);
@@ -985,6 +1010,7 @@ impl<'a> Gen<'a> {
                     if self.cfg.rate[F_FORK] > 0 && self.r.below(1000) < self.cfg.rate[F_FORK] {
                         self.emit_fork();
                     }
+                    self.maybe_checkpoint();
                 }
                 Action::PollTick => {
                     let period = self.cfg.poll_periodic.unwrap_or(0);
@@ -1112,7 +1138,11 @@ impl<'a> Gen<'a> {
                         self.emit_wire(&Wire::Lit { b });
                     }
                     3 => {
-                        if self.cfg.rate[F_FORK] > 0 {
+                        if self.cfg.rate[F_RESTORE] > 0 && self.r.chance(1, 2) {
+                            for _ in 0..8 {
+                                self.maybe_checkpoint();
+                            }
+                        } else if self.cfg.rate[F_FORK] > 0 {
                             self.emit_fork();
                         } else {
                             self.ev.push(Ev::Poll { ch: c });
